@@ -99,7 +99,7 @@ class Unit:
     def refute_escape(self, key):
         """Concrete witness that exception `key` really leaves the unit (unrolled run)."""
         for p in self.escapes('unroll').get(key, []):
-            if p.tainted:
+            if p.tainted or p.unknowns:
                 continue
             exc = p.value
             if getattr(exc, 'unit', None) is not None:
